@@ -126,6 +126,15 @@ def global_writes(model: Model, inv: Dict[str, Tuple[ModuleInfo, ast.AST, str]])
                     elif isinstance(tt, ast.Attribute):
                         # store to a class attribute through the class object / cls
                         b = tt.value
+                        if isinstance(n, ast.AugAssign) and isinstance(b, ast.Name) and b.id == "self" and f.cls is not None:
+                            # `self.x += ...` where x is a mutable object of the class body and no method binds self.x: the in-place
+                            # operator updates the one object every instance shares
+                            k = f"{f.cls.qualname}.{tt.attr}"
+                            if k in inv and not any(
+                                isinstance(a, ast.Assign) and any(isinstance(at, ast.Attribute) and at.attr == tt.attr and isinstance(at.value, ast.Name) and at.value.id == "self" for at in a.targets)
+                                for mf in f.cls.methods.values() for a in walk_no_nested(mf.node)
+                            ):
+                                out.append((f, n, k, "in-place operator through self"))
                         if isinstance(b, ast.Name) and b.id == "cls" and f.is_classmethod:
                             out.append((f, n, f"{f.cls.qualname if f.cls else '?'}.{tt.attr}", "class attribute store"))
                         else:
